@@ -77,6 +77,34 @@ let do_in () =
   let csr = String.concat ";" (List.init ncl (fun c -> String.concat "," (List.map (fun n -> string_of_int (int_of_nat n)) (cell_net_ids s.inets (nat_of_int c))))) in
   Printf.printf "%s | %s | %s\n" (zs tr) netsS csr
 
+let pol_of_int = function 0->PANY|1->PSAME|2->POPPOSITE|3->PNW|_->PSE
+let read_pcircuit () =
+  let nr = nexti () in let rows = rep nr row in
+  let nc = nexti () in
+  let cells = rep nc (fun () -> let x = z () in let y = z () in let w = z () in let h = z () in
+     let o = orient_of_int (nexti ()) in let p = pol_of_int (nexti ()) in let fx = nexti () <> 0 in let ob = nexti () <> 0 in
+     {c_x=x; c_y=y; c_w=w; c_h=h; c_o=o; c_pol=p; c_fixed=fx; c_obs=ob}) in
+  {rows=rows; cells=cells}
+let show_pl c = String.concat "" (List.map (fun k -> Printf.sprintf " %s %s %d" (zi k.c_x) (zi k.c_y) (int_of_orient k.c_o)) c.cells)
+let b2i b = if b then 1 else 0
+
+(* LG circuit norder order.. : model of DetailedPlacer::legalize *)
+let do_lg () =
+  let c = read_pcircuit () in
+  let no = nexti () in let order = rep no (fun () -> nat_of_int (nexti ())) in
+  let triv = trivially_feasible c in
+  (match legalize_circuit c order with
+   | LegOk c' -> Printf.printf "OK%s | %d %d %d\n" (show_pl c') (b2i (legalb c')) (b2i (orient_okb c c')) (b2i triv)
+   | LegNoRow -> Printf.printf "NOROW | - - %d\n" (b2i triv)
+   | LegNotAllPlaced -> Printf.printf "NOTALL | - - %d\n" (b2i triv))
+
+(* LC circuit (x y o per cell) : proved checkers on an externally supplied result *)
+let do_lc () =
+  let c = read_pcircuit () in
+  let cells' = List.map (fun k -> let x = z () in let y = z () in let o = orient_of_int (nexti ()) in {k with c_x=x; c_y=y; c_o=o}) c.cells in
+  let c' = {rows=c.rows; cells=cells'} in
+  Printf.printf "%d %d %d\n" (b2i (legalb c')) (b2i (orient_okb c c')) (b2i (trivially_feasible c))
+
 let () =
   try while true do
     let line = input_line stdin in
@@ -89,6 +117,8 @@ let () =
          (match tag with
           | "RL" -> do_rl ()
           | "RLC" -> do_rlc ()
+          | "LG" -> do_lg ()
+          | "LC" -> do_lc ()
           | "PO" -> do_po ()
           | "HP" -> do_hp ()
           | "IN" -> do_in ()
